@@ -266,6 +266,23 @@ func (s *Session) runUnits(names []string) ([]*UnitResult, error) {
 				t.o.SMTBytes = len(script)
 				fname := fmt.Sprintf("%s-%d", t.o.Name, t.id)
 				t.o.Res, _ = solve(s.workdir, fname, script, s.timeout, s.agree)
+				if t.o.Res.Status != "sat" && t.o.Res.Status != "unsat" && strings.Contains(script, "(forall ") {
+					// Quantified assumptions make the solvers answer "unknown" on
+					// obligations that do not hold. Retry without them: "sat" then
+					// means no proof exists from the quantifier-free facts either.
+					var qf []string
+					for _, a := range t.o.Assumes {
+						if !strings.Contains(a, "(forall ") {
+							qf = append(qf, a)
+						}
+					}
+					script2 := t.ex.w.st.script(qf, t.o.Goal, true, vals...)
+					r2, _ := solve(s.workdir, fname, script2, s.timeout, 1)
+					if r2.Status == "sat" {
+						r2.Backend += "(quantified assumptions dropped)"
+						t.o.Res = r2
+					}
+				}
 				t.o.Res.Output = strings.TrimSpace(t.o.Res.Output)
 				t.o.QueryFile = filepath.Join(s.workdir, sanitizeFile(fname)+".smt2")
 				if !s.keep && t.o.Res.Status == "unsat" {
@@ -340,7 +357,25 @@ func cmdRun(fnArg, mod string, verbose bool, keep string, timeout int) int {
 		return 2
 	}
 	var names []string
-	if fnArg == "" {
+	if sweepPrefix != "" {
+		for _, n := range sortedKeys(p.Funcs) {
+			if !strings.HasPrefix(n, sweepPrefix) || strings.Contains(n, "_test") {
+				continue
+			}
+			fn := p.Funcs[n]
+			if len(fn.Blocks) == 0 || fn.Synthetic != "" {
+				continue
+			}
+			if pos := p.SSA.Fset.Position(fn.Pos()); strings.HasSuffix(pos.Filename, "_test.go") {
+				continue
+			}
+			if _, ok := p.CS.ByName[n]; !ok {
+				p.CS.ByName[n] = &Contract{Name: n, Invariants: map[int][]Clause{}, MaxPaths: 3000,
+					Sweep: map[string]bool{"bounds": true, "panic": true, "make": true, "nilmem": true, "div": true}}
+			}
+			names = append(names, n)
+		}
+	} else if fnArg == "" {
 		for _, n := range p.CS.Order {
 			c := p.CS.ByName[n]
 			if !c.Extern && moduleOf(n) == mod {
@@ -387,6 +422,9 @@ func cmdRun(fnArg, mod string, verbose bool, keep string, timeout int) int {
 					}
 					m := parseValues(o.Witness.Res.Output)
 					for _, k := range sortedKeys(o.Witness.Inputs) {
+						if i := strings.Index(k, "["); i > 0 && len(k)-i > 3 {
+							continue // print the first ten elements only
+						}
 						if v, ok := m[normSpace(o.Witness.Inputs[k])]; ok {
 							fmt.Printf("      %s = %s\n", k, v)
 						}
